@@ -261,6 +261,9 @@ pub fn start_job(command: Arc<Command>) -> (Job, JoinHandle<()>) {
 										}
 									}
 
+									// this is the restart: the next process end must not restart again
+									on_end_restart = None;
+
 									let mut spawnable = command.to_spawnable();
 									previous_run = Some(command_state.reset());
 									spawn_hook
